@@ -157,7 +157,8 @@ OnWrite(g, e) ==
             \cup (IF isHelp /\ ln.doc # "" THEN Chk("C16.describes", s, e.hasdoc) ELSE {})
             \cup (IF ln.cls = "nonpublic" THEN Chk("C16.nonpublic", s, e.invalid) ELSE {})
             \cup (IF (isHelp \/ isMal) /\ ln.ref # "" THEN Chk("C18.own", s, e.text = ln.ref) ELSE {})
-            \cup (IF (isHelp \/ isMal \/ ln.twinkind = "converr") /\ ln.ser THEN Chk("C18.noeffect", s, e.pobs = ln.pobs) ELSE {})
+            \* (only if nothing of this session was still in progress when the line was sent)
+            \cup (IF (isHelp \/ isMal \/ ln.twinkind = "converr") /\ ln.ser /\ ln.alone THEN Chk("C18.noeffect", s, e.pobs = ln.pobs) ELSE {})
   IN MOut(g2, vs, Hit("C17.reply", ln.twinkind = "value") \cup Hit("C16.help", isHelp) \cup Hit("C18.own", (isHelp \/ isMal) /\ ln.ref # "")
                   \cup Hit("C18.noeffect", isHelp \/ isMal) \cup Hit("C16.nonpublic", ln.cls = "nonpublic")
                   \cup Hit("C18.await", ln.twinkind = "await"))
@@ -168,7 +169,7 @@ OnACmp(g, e) == MOut(g, Chk("C17.reply", e.s, e.text = Expected(e.twk, e.twin) \
 OnSend(g, e) ==
   LET s == e.s IN
   IF e.blank THEN [g EXCEPT !.ended[s] = TRUE]
-  ELSE [g EXCEPT !.q[s] = Append(@, e), !.sentk[s] = @ + 1]
+  ELSE [g EXCEPT !.q[s] = Append(@, [alone |-> Len(g.q[s]) = 0] @@ e), !.sentk[s] = @ + 1]
 
 OnIdle(g, e) ==
   (* the loop is idle: every session that is not inside a waiting method has answered all its lines; the
@@ -186,7 +187,11 @@ OnIdle(g, e) ==
   IN MOut(g, vs, Hit("C18.one", TRUE) \cup Hit("C17.state", e.tobs # ""))
 
 OnSDone(g, e) ==
-  MOut([g EXCEPT !.ended[e.s] = TRUE], Chk("C18.escape", e.s, e.how # "exc"), Hit("C18.escape", TRUE))
+  MOut([g EXCEPT !.ended[e.s] = TRUE],
+       Chk("C18.escape", e.s, e.how # "exc")
+       \* the session died on a well-formed command instead of answering it with the str() of the exception
+       \cup (IF e.how = "exc" /\ Len(g.q[e.s]) > 0 /\ Head(g.q[e.s]).hascall THEN Chk("C17.reply", e.s, FALSE) ELSE {}),
+       Hit("C18.escape", TRUE))
 
 OnFinal(g, e) ==
   MOut(g, Chk("C18.quiet", -1, e.stdout = "" /\ e.stderr = "" /\ e.loop_errors = 0), Hit("C18.quiet", TRUE))
